@@ -663,3 +663,110 @@ theorem rowsToTree_spec (c : Char) (dupOk : Bool) (items : List Item) (hwf : ∀
     exact ⟨v1, v2, v3, v4, v6⟩
 
 end Paths
+
+namespace Paths
+open Str Rel
+
+/-! ## exact repeats among the given strings do not change first appearances -/
+
+theorem filter_comm' {α} (p q : α → Bool) (l : List α) : (l.filter p).filter q = (l.filter q).filter p := by
+  rw [List.filter_filter, List.filter_filter]
+  apply List.filter_congr
+  intro a _
+  exact Bool.and_comm _ _
+
+theorem dedupBy_flatMap_filter {α β} [DecidableEq α] [DecidableEq β] (g : α → List β) (x : α) : ∀ (l : List α),
+    (dedupBy ((l.filter fun y => decide (y ≠ x)).flatMap g)).filter (fun q => decide (q ∉ g x)) =
+    (dedupBy (l.flatMap g)).filter (fun q => decide (q ∉ g x)) := by
+  intro l
+  induction l with
+  | nil => rfl
+  | cons y l ih =>
+    by_cases hy : y = x
+    · subst hy
+      rw [List.filter_cons_of_neg (by simp), ih, List.flatMap_cons, dedupBy_append, List.filter_append]
+      have : (dedupBy (g y)).filter (fun q => decide (q ∉ g y)) = [] := by
+        rw [List.filter_eq_nil_iff]
+        intro q hq
+        simpa using (mem_dedupBy _ _).mp hq
+      rw [this, List.nil_append, List.filter_filter]
+      apply List.filter_congr
+      intro q _
+      simp
+    · rw [List.filter_cons_of_pos (by simpa using hy), List.flatMap_cons, List.flatMap_cons, dedupBy_append,
+        dedupBy_append, List.filter_append, List.filter_append]
+      congr 1
+      rw [filter_comm', ih, filter_comm']
+
+theorem dedupBy_flatMap_dedupBy {α β} [DecidableEq α] [DecidableEq β] (g : α → List β) : ∀ (xs : List α),
+    dedupBy ((dedupBy xs).flatMap g) = dedupBy (xs.flatMap g) := by
+  intro xs
+  induction xs with
+  | nil => rfl
+  | cons x xs ih =>
+    simp only [dedupBy, List.flatMap_cons, dedupBy_append]
+    congr 1
+    rw [dedupBy_flatMap_filter g x (dedupBy xs), ih]
+
+theorem paths_dedup_eq (l : List Str) : Paths.dedup l = dedupBy l := by
+  induction l with
+  | nil => rfl
+  | cons x xs ih => simp [Paths.dedup, dedupBy, ih]
+
+/-- the components a well-formed path string stands for -/
+def branchOf (c : Char) (p : Str) : List Str := split [c] (strip [c] p)
+
+theorem branchOf_render (c : Char) (it : Item) (hw : it.Wf c) : branchOf c (it.render c) = it.branch :=
+  split_strip_join c it.lead it.trail it.branch hw.1 hw.2.1 hw.2.2.1 hw.2.2.2
+
+/-- a string is well-formed if some well-formed item renders to it -/
+def WfStr (c : Char) (p : Str) : Prop := ∃ it : Item, it.Wf c ∧ it.attrs = [] ∧ it.render c = p
+
+theorem items_of_strings (c : Char) : ∀ (ps : List Str), (∀ p ∈ ps, WfStr c p) →
+    ∃ items : List Item, (∀ it ∈ items, it.Wf c) ∧ (∀ it ∈ items, it.attrs = []) ∧
+      items.map (·.render c) = ps ∧ items.map (·.branch) = ps.map (branchOf c) := by
+  intro ps
+  induction ps with
+  | nil => intro _; exact ⟨[], by simp, by simp, rfl, rfl⟩
+  | cons p ps ih =>
+    intro h
+    obtain ⟨it, hw, ha, hr⟩ := h p (by simp)
+    obtain ⟨items, h1, h2, h3, h4⟩ := ih (fun q hq => h q (List.mem_cons_of_mem _ hq))
+    refine ⟨it :: items, ?_, ?_, by simp [hr, h3], by simp [h4, ← hr, branchOf_render c it hw]⟩
+    · intro x hx; rcases List.mem_cons.mp hx with rfl | hx
+      · exact hw
+      · exact h1 x hx
+    · intro x hx; rcases List.mem_cons.mp hx with rfl | hx
+      · exact ha
+      · exact h2 x hx
+
+/-- `list_to_tree` on ANY list of well-formed path strings (repeats allowed) -/
+theorem listToTree_spec' (c : Char) (dupOk : Bool) (ps : List Str) (hwf : ∀ p ∈ ps, WfStr c p) (t : Tree)
+    (h : listToTree [c] dupOk ps = .ok t) :
+    SibUnique t ∧ (firstSeen (ps.map (branchOf c))).Nodup ∧
+    (∀ q, q ∈ paths t ↔ q ∈ firstSeen (ps.map (branchOf c))) ∧
+    (∀ b n, nodeAt b t = some n →
+      (kidPaths (namesAlong b t) n).Sublist (firstSeen (ps.map (branchOf c)))) ∧
+    (dupOk = false → (names t).Nodup) := by
+  -- `list_to_tree` only looks at the de-duplicated list
+  have hdd : listToTree [c] dupOk (Paths.dedup ps) = listToTree [c] dupOk ps := by
+    unfold listToTree
+    rw [paths_dedup_eq, paths_dedup_eq, dedupBy_of_nodup _ (nodup_dedupBy ps)]
+  rw [← hdd] at h
+  have hwf' : ∀ p ∈ Paths.dedup ps, WfStr c p := by
+    intro p hp
+    rw [paths_dedup_eq, mem_dedupBy] at hp
+    exact hwf p hp
+  obtain ⟨items, i1, i2, i3, i4⟩ := items_of_strings c (Paths.dedup ps) hwf'
+  rw [← i3] at h
+  have hnd : (items.map (·.render c)).Nodup := by rw [i3, paths_dedup_eq]; exact nodup_dedupBy ps
+  obtain ⟨s1, s2, s3, s4, s5⟩ := listToTree_spec c dupOk items i1 i2 hnd t h
+  have hfs : firstSeen (items.map (·.branch)) = firstSeen (ps.map (branchOf c)) := by
+    rw [i4, paths_dedup_eq]
+    unfold firstSeen
+    rw [List.flatMap_map, List.flatMap_map]
+    exact dedupBy_flatMap_dedupBy (fun p => prefixes (branchOf c p)) ps
+  rw [hfs] at s2 s3 s4
+  exact ⟨s1, s2, s3, s4, s5⟩
+
+end Paths
